@@ -754,6 +754,104 @@ def kf_witness(ctx):
     return _worker(job)
 
 
+def _rec_history_job(job):
+    """parses that raised from a user RECOGNIZER (any exception type) must leave the parser
+    instance as good as new: the probe parse equals the parse on a freshly built parser"""
+    seed, glr, ctxarg, excname, tables = job
+    import builtins
+    import random as _random
+    import parglare
+    from parglare import GLRParser, Grammar, Parser
+    from parglare.tables import LALR, SLR
+    from lib import impl
+    rng = _random.Random(seed)
+    gtext = rng.choice(["S: T S | T;\nterminals\nT: ;", "S: S T | T 'c';\nterminals\nT: ;",
+                        "S: A B;\nA: T A | T;\nB: 'c' | EMPTY;\nterminals\nT: ;"])
+    exc = UserBoom if excname == "UserBoom" else getattr(builtins, excname)
+
+    def world():
+        ctl = {"arm": None, "n": 0}
+
+        def body(inp, pos):
+            ctl["n"] += 1
+            if ctl["arm"] is not None and ctl["n"] >= ctl["arm"]:
+                raise exc("trap")
+            return inp[pos:pos + 1] if inp[pos:pos + 1] in ("a", "b") else None
+        if ctxarg:
+            def rec(context, inp, pos):
+                return body(inp, pos)
+        else:
+            def rec(inp, pos):
+                return body(inp, pos)
+        g = Grammar.from_string(gtext, recognizers={"T": rec})
+        cls = GLRParser if glr else Parser
+        return ctl, cls(g, tables=LALR if tables else SLR)
+
+    def parse(ctl, p, w, arm):
+        ctl["arm"], ctl["n"] = arm, 0
+        try:
+            with impl.time_limit(10):
+                r = p.parse(w)
+            return ["ok", len(r) if glr else _canon_res(r)]
+        except parglare.SyntaxError as e:
+            return ["SyntaxError", e.location.start_position]
+        except BaseException as e:  # noqa
+            return ["exc", type(e).__name__]
+        finally:
+            ctl["arm"] = None
+    out = {"job": list(job), "grammar": gtext, "steps": []}
+    try:
+        with impl.time_limit(20), impl.quiet():
+            ctl, p = world()
+            ctlf, pf = world()
+    except BaseException as e:  # noqa
+        out["gerr"] = impl.exc_kind(e)
+        return out
+    words = ["a", "ab", "abc", "ba c", "x", "", "a b a", "abab", "c", "bac"]
+    hist = [(rng.choice(words), rng.choice([None, 1, 2, 3])) for _ in range(rng.randint(1, 4))]
+    hist.append((rng.choice(words[:4]), 1))          # at least one parse that hits the trap
+    for w, arm in hist:
+        out["steps"].append([w, arm, parse(ctl, p, w, arm)])
+    out["probes"] = []
+    for w in words:
+        out["probes"].append([w, parse(ctl, p, w, None), parse(ctlf, pf, w, None)])
+    return out
+
+
+def _canon_res(v):
+    if isinstance(v, (list, tuple)):
+        return [_canon_res(x) for x in v]
+    return v if v is None or isinstance(v, (str, int)) else "<%s>" % type(v).__name__
+
+
+def recognizer_histories(ctx, st):
+    quick = ctx.quick()
+    jobs = []
+    excs = ["UserBoom", "TypeError", "ValueError", "IndexError", "KeyError", "AttributeError", "RuntimeError"]
+    for i in range(56 if quick else 560):
+        jobs.append((ctx.rng.randrange(10 ** 9), i % 2, (i // 2) % 2, excs[i % len(excs)], (i // 4) % 2))
+    with mp.Pool(common.NPROC) as pool:
+        outs = pool.map(_rec_history_job, jobs, chunksize=4)
+    st["recognizer_histories"] = len(outs)
+    st["recognizer_history_probes"] = 0
+    st["recognizer_history_raised"] = 0
+    for o in outs:
+        if o.get("gerr"):
+            ctx.violation("grammar with a custom recognizer failed to build: %s" % o["gerr"], o, key="rec-build")
+            continue
+        st["recognizer_history_raised"] += sum(1 for s_ in o["steps"] if s_[2][0] == "exc")
+        for w, used, fresh in o["probes"]:
+            st["recognizer_history_probes"] += 1
+            if used != fresh:
+                seed, glr, ctxarg, excname, tables = o["job"]
+                ctx.violation("%s: after parses in which the user recognizer raised %s the parse of %r is %r, on a "
+                              "fresh parser %r" % ("GLRParser" if glr else "Parser", excname, w, used, fresh),
+                              {"grammar": o["grammar"], "recognizer": "T(%sinput, pos): 'a'|'b', raising %s when armed"
+                               % ("context, " if ctxarg else "", excname),
+                               "history": o["steps"], "input": w, "job": o["job"]}, key="rec-history")
+                break
+
+
 def run(ctx):
     jobs = gen_jobs(ctx)
     with mp.Pool(common.NPROC) as pool:
@@ -764,6 +862,7 @@ def run(ctx):
           "probe_builds": 0, "histories_with_interrupt": 0, "histories_with_rewritten_aug": 0,
           "with_layout": 0, "lr_nonterminating": 0, "history_lengths": {}, "nontrivial": set(),
           "lr_subject": {}, "glr_subject": {}}
+    recognizer_histories(ctx, st)
     allcases, spans = [], []
     for r in results:
         st["worlds"] += 1
